@@ -42,7 +42,8 @@ def _is_base_k_exp(lam: ast.AST, k: int) -> bool:
     x = lam.args.args[0].arg
     b = lam.body
     def is_k(e):
-        return isinstance(e, ast.Constant) and isinstance(e.value, (int, float)) and float(e.value) == float(k)
+        # the base must be a FLOAT literal: numpy refuses integer bases with negative integer exponents and overflows int64 beyond 10**18
+        return isinstance(e, ast.Constant) and isinstance(e.value, float) and e.value == float(k)
     if isinstance(b, ast.BinOp) and isinstance(b.op, ast.Pow) and is_k(b.left) and norm(b.right) == x:
         return True
     if isinstance(b, ast.Call) and (dotted(b.func) or "").endswith("power") and len(b.args) == 2 and is_k(b.args[0]) and norm(b.args[1]) == x:
@@ -129,7 +130,13 @@ def r2(ctx):
     t = norm(po.node)
     for what, frag in (("rows with nulls yield nulls", "out.fill(numpy.nan)"), ("only non-null rows are fitted/evaluated", "nonnull_indices = numpy.flatnonzero(~numpy.isnan(x))"),
                        ("results are written back row-wise", "out[nonnull_indices, :] = P[:, 1:]"), ("the constant column is dropped", "P[:, 0] = 1"),
-                       ("recorded recurrence coefficients are reused", "alpha = _state.get('alpha')")):
+                       ("recorded recurrence coefficients are reused", "alpha = _state.get('alpha')"),
+                       ("three-term recurrence, first order", "P[:, i] = (x - get_alpha(i - 1)) * P[:, i - 1]"),
+                       ("three-term recurrence, second order", "P[:, i] -= get_beta(i - 1) * P[:, i - 2]"),
+                       ("alpha_k = <x p_k, p_k> / <p_k, p_k>", "alpha[k] = numpy.sum(x * P[:, k] ** 2) / numpy.sum(P[:, k] ** 2)"),
+                       ("norm_k = <p_k, p_k>", "norms2[k] = numpy.sum(P[:, k] ** 2)"),
+                       ("beta_k = norm_k / norm_{k-1}", "return get_norm(k) / get_norm(k - 1)"),
+                       ("every column is divided by the root of its own squared norm", "P /= numpy.array([numpy.sqrt(get_norm(k)) for k in range(0, degree + 1)])")):
         ctx.look()
         ctx.check(frag in t, "C13.R2", f"poly: {what}", po.where, ctx.construct(po, text=what), f"expected `{frag}`")
 
